@@ -180,12 +180,30 @@ def radial(n, m, rho):
     return out
 
 
-def zernike_value(n, m, parity, rho, theta, normalize=True, sine_sign=-1):
+def radial_exact(n, m, rho):
+    """R_n^m at the given float coordinates in exact rational arithmetic, rounded once (any order: the alternating factorial sum
+    cancels catastrophically in any fixed precision from n of about 30 on)."""
+    rho = np.asarray(rho, dtype=float)
+    co = radial_coeffs(n, m)
+    out = np.zeros(rho.shape, dtype=LD)
+    flat = out.reshape(-1)
+    for i, r in enumerate(rho.reshape(-1)):
+        num, den = float(r).as_integer_ratio()
+        acc = 0
+        for p, c in co.items():
+            acc += c * num ** p * den ** (n - p)
+        q = Fraction(acc, den ** n)
+        hi = float(q)
+        flat[i] = LD(hi) + LD(float(q - Fraction(hi)))
+    return out
+
+
+def zernike_value(n, m, parity, rho, theta, normalize=True, sine_sign=-1, exact=False):
     """Textbook mode.  sine_sign=-1 pins lentil's documented convention sin(m*theta)
     with signed m<0 (i.e. -sin(|m| theta))."""
     rho = np.asarray(rho, dtype=LD)
     theta = np.asarray(theta, dtype=LD)
-    R = radial(n, m, rho)
+    R = radial_exact(n, m, rho) if exact else radial(n, m, rho)
     if m == 0:
         z = R * (np.sqrt(LD(n + 1)) if normalize else 1)
     else:
